@@ -19,6 +19,9 @@ GLOBAL_ASSUMPTIONS = [
 # module name -> (source file it becomes a child of, harness file)
 MODULES = {
     "hist_c08": ("src/histogram.rs", K / "hist_c08.rs"),
+    "hist_c03": ("src/histogram.rs", K / "hist_c03.rs"),
+    "hist_c02": ("src/histogram.rs", K / "hist_c02.rs"),
+    "hist_c18": ("src/histogram.rs", K / "hist_c18.rs"),
     "atomic_c01": ("src/atomic64.rs", K / "atomic_c01.rs"),
     "counter_c01": ("src/counter.rs", K / "counter_c01.rs"),
     "gauge_c11": ("src/gauge.rs", K / "gauge_c11.rs"),
@@ -59,10 +62,37 @@ PLAN = {
         functions=[],
         assumptions=[A2, ENV, "for f64, sub(x) undoes add(x) only up to IEEE rounding: the contract is c + x + (-x); exact inversion is proved for IntGauge"],
     ),
+    "C02": dict(
+        title="Every histogram snapshot is one consistent cut of the observations",
+        level="other",
+        modules=["hist_c08", "hist_c02"],
+        crate_modules=["__venv"],
+        verus=[],
+        functions=[],
+        explanation="REDUCED LEVEL. The all-schedules statement (every snapshot is one consistent cut) is NOT decided: it quantifies over interleavings of a multi-location lock-free protocol and over the memory model, which no per-function contract decides. What is machine-checked on the real code, under ARBITRARY interference (every value read at every atomic step havocked), are the per-thread protocol-step guarantees G-obs, G-flush, G-col, G-get: which cells each operation touches, by which single atomic operation, in which order, with which memory ordering, under which lock, and the exit condition of the collector's wait loop. They are necessary conditions of the hand-off argument in the code comments; their sufficiency (A3) is a paper argument.",
+        assumptions=[A2, ENV, "A3 the multi-location hand-off protocol theorem (G-obs + G-col + G-get => consistent cut) is NOT machine-checked", "AtomicF64::inc_by is replaced by its contract (one atomic float add), proved separately in C01"],
+    ),
+    "C03": dict(
+        title="Histograms conserve observations across any sequence of collects and flushes",
+        level="proof",
+        modules=["hist_c08", "hist_c03", "hist_c02"],
+        crate_modules=["__venv"],
+        verus=["c03_history.rs"],
+        functions=[],
+        assumptions=[A2, ENV, "sequential histories are decided by induction (step obligations from an arbitrary state satisfying the representation invariant); concurrent histories only through the C02 step guarantees (collector's exit condition = G-col) and assumption A3", "no-overflow precondition: counts < 2^40 per cell in the symbolic state (the code's own limit is 2^63)", "HistogramCore::new's shard construction is represented by Shard::new/ShardAndCount::new (base case); Desc::new is outside this cone"],
+    ),
+    "C18": dict(
+        title="A timer records its duration exactly once, or never when discarded",
+        level="proof",
+        modules=["hist_c08", "hist_c18"],
+        verus=[],
+        functions=[],
+        assumptions=["clock contract assumed: std::time::Instant::now returns some instant; Instant::saturating_duration_since returns SOME Duration (any non-negative span); both are stubs", "moving a timer to another thread does not change its state (ownership); no separate obligation", "nightly-only coarse timers are not built (feature off)"],
+    ),
     "C08": dict(
         title="Bucket counts follow 'value <= upper bound' for every input",
         level="proof",
-        modules=["hist_c08"],
+        modules=["hist_c08", "hist_c03"],
         verus=["c08_cumulative.rs"],
         functions=[
             "histogram::check_and_adjust_buckets", "histogram::HistogramCore::observe",
